@@ -64,6 +64,43 @@ def h_diagnostics(model: str, n: int, **sym):
                     'appears_inverted differs', node, tr, inverted[i])
 
 
+def h_deep_diagnostics(model: str, depth: int, ntrail: int, **sym):
+    """Deep nesting, several closes on one triple, re-entrancies written
+    from an ancestor after the closes."""
+    from penman import layout
+    from penman.tree import Tree
+    from vflib.props.c02 import deep_tree
+    real, ref = models.get(model)
+    node = deep_tree(sym, depth, ntrail, models.ROLES[model][:3])
+    assume(well_formed(node, ref))
+    top, triples, info = ref_interpret(node, ref)
+    try:
+        g = layout.interpret(Tree(progs.copy_tree(node)), real)
+        ctx = layout.node_contexts(g)
+        pushed = [layout.get_pushed_variable(g, t) for t in g.triples]
+        inverted = [layout.appears_inverted(g, t) for t in g.triples]
+    except Exception as exc:
+        raise Violation(f'{type(exc).__name__}: {exc}', node)
+    mark('deep')
+    require(g.triples == triples, 'triples differ (C04)', node, g.triples)
+    for i, (tr, inf) in enumerate(zip(triples, info)):
+        require(ctx[i] == inf['ctx'], 'node context differs', node, tr, ctx)
+        require(pushed[i] == inf['pushed'], 'pushed variable differs', node,
+                tr, pushed[i])
+        if tr[0] != tr[2]:
+            require(bool(inverted[i]) == inf['written_inverted'],
+                    'appears_inverted differs', node, tr, inverted[i])
+
+
+def _deep_params(fixed):
+    from vflib.props.c02 import deep_params
+    return {k: v for k, v in deep_params(fixed['depth'],
+                                         fixed['ntrail']).items()
+            if k not in fixed}
+
+
+h_deep_diagnostics.params_for = _deep_params
+
 h_diagnostics.params_for = lambda fixed: {
     k: v for k, v in progs.tree_params(fixed['n']).items() if k not in fixed}
 
@@ -132,6 +169,15 @@ def obligations(tier: str) -> List[dict]:
         ml(1, 1, False, 120)
         ml(2, 1, False, 200)
         ml(2, 1, True, 200)
+        for m in ('default', 'amr'):
+            for depth, nt in ((2, 1), (3, 1), (2, 2)):
+                obs.append({'name': f'E2 deep diagnostics model={m} '
+                                    f'depth={depth} trailing={nt}',
+                            'kind': 'e2', 'fn': 'h_deep_diagnostics',
+                            'fixed': {'model': m, 'depth': depth,
+                                      'ntrail': nt}, 'timeout': 400,
+                            'bound': f'chain of {depth + 1} nodes + {nt} '
+                                     'trailing', 'need_marks': ['deep']})
     else:
         for m in ('default', 'amr'):
             for ops in OPS2:
@@ -140,6 +186,18 @@ def obligations(tier: str) -> List[dict]:
                     if ops == (0, 0) and op2 == 2:
                         continue
                     tree(m, 4, 3000, ops + (op2,))
+        for m in ('default', 'amr'):
+            for depth, nt in ((3, 2), (4, 1), (4, 2)):
+                for lvl in range(depth):
+                    obs.append({'name': f'E2 deep diagnostics model={m} '
+                                        f'depth={depth} trailing={nt} '
+                                        f'level={lvl}', 'kind': 'e2',
+                                'fn': 'h_deep_diagnostics',
+                                'fixed': {'model': m, 'depth': depth,
+                                          'ntrail': nt, 'level': lvl},
+                                'timeout': 3000,
+                                'bound': f'chain of {depth + 1} nodes',
+                                'need_marks': ['deep']})
         ml(2, 2, False, 1200)
         ml(2, 2, True, 1200)
         ml(3, 2, True, 3000)
